@@ -9,7 +9,9 @@ import time
 
 ROOT = os.path.dirname(os.path.dirname(os.path.abspath(__file__)))
 SPEC = os.path.join(ROOT, "spec")
-HARNESS = os.path.join(ROOT, "harness")
+# VERIF_HARNESS_DIR: a private copy of the harness (pointing at a private copy of /repo) used only
+# for mutation self-tests; the registered checks always use /verif/harness against /repo itself
+HARNESS = os.environ.get("VERIF_HARNESS_DIR") or os.path.join(ROOT, "harness")
 WORK = os.path.join(ROOT, "work")
 EVIDENCE = os.path.join(ROOT, "evidence")
 REPLAYS = os.path.join(ROOT, "replays")
